@@ -1,5 +1,626 @@
 import EoVerif.Model.Imports
-/-! Helper lemmas for C20 (invariants of the import machine). -/
 namespace EoVerif.Imp
+
+section Assoc
+variable {α β : Type} [BEq α] [LawfulBEq α]
+
+theorem find_map_upd (l : List (α × β)) (m x : α) (v : β) :
+    ((l.map (fun p => if p.1 == m then (m, v) else p)).find? (·.1 == x)).map (·.2)
+      = if x == m then (if l.any (·.1 == m) then some v else none)
+        else (l.find? (·.1 == x)).map (·.2) := by
+  induction l with
+  | nil => simp
+  | cons p l ih =>
+    rw [List.map_cons, List.find?_cons, List.find?_cons, List.any_cons]
+    rcases Bool.eq_false_or_eq_true (p.1 == m) with hpm | hpm <;>
+    rcases Bool.eq_false_or_eq_true (x == m) with hxm | hxm
+    · have := eq_of_beq hxm; subst this
+      simp [hpm]
+    · have hmx : (m == x) = false := by
+        cases h : (m == x)
+        · rfl
+        · have := eq_of_beq h; subst this; simp at hxm
+      have hpx' : (p.1 == x) = false := by
+        have := eq_of_beq hpm; rw [this]; exact hmx
+      simp [hpm, hmx, hxm, hpx'] at ih ⊢
+      exact ih
+    · have := eq_of_beq hxm; subst this
+      simp only [hpm, Bool.false_or, Bool.false_eq_true, if_false]
+      exact ih
+    · rcases Bool.eq_false_or_eq_true (p.1 == x) with hpx | hpx
+      · simp [hpm, hpx, hxm]
+      · simp [hpm, hpx, hxm] at ih ⊢
+        exact ih
+
+theorem find_upsert (l : List (α × β)) (m x : α) (v : β) :
+    ((if l.any (·.1 == m) then l.map (fun p => if p.1 == m then (m, v) else p)
+        else l ++ [(m, v)]).find? (·.1 == x)).map (·.2)
+      = if x == m then some v else (l.find? (·.1 == x)).map (·.2) := by
+  split
+  · rename_i h
+    rw [find_map_upd, h]; simp
+  · rename_i h
+    rw [List.find?_append]
+    by_cases hxm : x = m
+    · subst hxm
+      have : l.find? (·.1 == x) = none := by
+        rw [List.find?_eq_none]; intro p hp hpx
+        exact h (List.any_eq_true.2 ⟨p, hp, hpx⟩)
+      simp [this]
+    · have : ¬ m = x := fun h => hxm h.symm
+      simp [hxm, this]
+
+omit [LawfulBEq α] in
+theorem any_eq_find (l : List (α × β)) (x : α) :
+    l.any (·.1 == x) = ((l.find? (·.1 == x)).map (·.2)).isSome := by
+  induction l with
+  | nil => simp
+  | cons p l ih => 
+    rw [List.any_cons, List.find?_cons]
+    cases hpx : (p.1 == x)
+    · simpa using ih
+    · simp
+end Assoc
+
+/-! ### `sys.modules` and namespaces as association lists -/
+
+theorem nsGet_nsSet (ns : List (String × Obj)) (k k' : String) (v : Obj) :
+    nsGet (nsSet ns k v) k' = if k' == k then some v else nsGet ns k' := by
+  unfold nsGet nsSet
+  exact find_upsert ns k k' v
+
+theorem loaded_eq (s : St) (m : MName) : s.loaded m = (s.mod? m).isSome := by
+  unfold St.loaded St.mod?
+  exact any_eq_find s.mods m
+
+theorem mod?_setMod (s : St) (m x : MName) (ms : ModState) :
+    (s.setMod m ms).mod? x = if x == m then some ms else s.mod? x := by
+  have h := find_upsert s.mods m x ms
+  unfold St.setMod St.mod? St.loaded
+  split <;> rename_i hl <;> simp only [hl, if_true, if_false, Bool.false_eq_true] at h <;> exact h
+
+@[simp] theorem err_setMod (s : St) (m : MName) (ms : ModState) : (s.setMod m ms).err = s.err := by
+  unfold St.setMod; split <;> rfl
+
+@[simp] theorem err_bind (s : St) (m : MName) (k : String) (v : Obj) : (s.bind m k v).err = s.err := by
+  unfold St.bind; split <;> simp
+
+theorem mod?_bind (s : St) (m x : MName) (k : String) (v : Obj) :
+    (s.bind m k v).mod? x =
+      if x == m then (s.mod? m).map (fun ms => { ms with ns := nsSet ms.ns k v }) else s.mod? x := by
+  unfold St.bind
+  split
+  · rename_i ms h
+    rw [mod?_setMod, h]; rfl
+  · rename_i h
+    rw [h]
+    by_cases hx : x = m
+    · subst hx; simp [h]
+    · simp [hx]
+
+theorem loaded_setMod (s : St) (m x : MName) (ms : ModState) :
+    (s.setMod m ms).loaded x = (x == m || s.loaded x) := by
+  rw [loaded_eq, loaded_eq, mod?_setMod]
+  by_cases hx : x = m <;> simp [hx]
+
+@[simp] theorem loaded_bind (s : St) (m x : MName) (k : String) (v : Obj) :
+    (s.bind m k v).loaded x = s.loaded x := by
+  rw [loaded_eq, loaded_eq, mod?_bind]
+  by_cases hx : x = m
+  · subst hx; simp
+  · simp [hx]
+
+theorem lookup_setMod_ne (s : St) (m x : MName) (ms : ModState) (k : String) (h : x ≠ m) :
+    (s.setMod m ms).lookup x k = s.lookup x k := by
+  unfold St.lookup; rw [mod?_setMod]; simp [h]
+
+theorem lookup_bind_ne (s : St) (m x : MName) (k k' : String) (v : Obj) (h : x ≠ m ∨ k' ≠ k) :
+    (s.bind m k v).lookup x k' = s.lookup x k' := by
+  unfold St.lookup; rw [mod?_bind]
+  by_cases hx : x = m
+  · subst hx
+    have hk : k' ≠ k := by rcases h with h | h; exact absurd rfl h; exact h
+    cases hm : s.mod? x <;> simp [nsGet_nsSet, hk]
+  · simp [hx]
+
+theorem lookup_bind_self (s : St) (m : MName) (k : String) (v : Obj) (h : s.loaded m = true) :
+    (s.bind m k v).lookup m k = some v := by
+  unfold St.lookup; rw [mod?_bind]
+  rw [loaded_eq] at h
+  cases hm : s.mod? m
+  · simp [hm] at h
+  · simp [nsGet_nsSet]
+
+/-! ### Effect of one transition -/
+
+/-- `s'` has the same loaded modules as `s`, errors persist, and (under `keep`) `P.c` is untouched -/
+def Rel (P : MName) (c : String) (keep : Prop) (s s' : St) : Prop :=
+  (∀ x, s'.loaded x = s.loaded x) ∧ (keep → s'.lookup P c = s.lookup P c) ∧
+    (s.err ≠ none → s'.err ≠ none)
+
+theorem Rel.refl (P : MName) (c : String) (keep : Prop) (s : St) : Rel P c keep s s :=
+  ⟨fun _ => rfl, fun _ => rfl, id⟩
+
+theorem Rel.trans {P : MName} {c : String} {keep : Prop} {a b d : St}
+    (h1 : Rel P c keep a b) (h2 : Rel P c keep b d) : Rel P c keep a d :=
+  ⟨fun x => (h2.1 x).trans (h1.1 x), fun hk => (h2.2.1 hk).trans (h1.2.1 hk),
+   fun h => h2.2.2 (h1.2.2 h)⟩
+
+theorem rel_bind (P : MName) (c : String) (keep : Prop) (s : St) (m : MName) (k : String) (v : Obj)
+    (h : keep → m ≠ P ∨ k ≠ c) : Rel P c keep s (s.bind m k v) := by
+  refine ⟨fun x => loaded_bind .., fun hk => ?_, by simp⟩
+  apply lookup_bind_ne
+  rcases h hk with h | h
+  · exact Or.inl (fun e => h e.symm)
+  · exact Or.inr (fun e => h e.symm)
+
+theorem orElse_ne_none (e : Option String) (x : String) :
+    e.orElse (fun _ => some x) ≠ none := by
+  cases e <;> simp
+
+theorem rel_err (P : MName) (c : String) (keep : Prop) (s : St) (x : String) :
+    Rel P c keep s { s with err := s.err.orElse (fun _ => some x) } :=
+  ⟨fun _ => rfl, fun _ => rfl, fun _ => orElse_ne_none _ _⟩
+
+theorem rel_foldl {β : Type} (P : MName) (c : String) (keep : Prop) (f : St → β → St)
+    (hf : ∀ a x, Rel P c keep a (f a x)) (l : List β) (s : St) : Rel P c keep s (l.foldl f s) := by
+  induction l generalizing s with
+  | nil => exact Rel.refl ..
+  | cons x l ih => exact (hf s x).trans (ih (f s x))
+
+
+/-- frames owned by `P` other than `finish P` -/
+def isP (P : MName) : Frame → Bool
+  | .exec m _ => m == P
+  | .afterStar m _ => m == P
+  | .afterFrom m _ _ => m == P
+  | .afterImp m _ _ => m == P
+  | _ => false
+
+/-- the continuation frames of `P`'s import statements -/
+def isAft (P : MName) : Frame → Bool
+  | .afterStar m _ => m == P
+  | .afterFrom m _ _ => m == P
+  | .afterImp m _ _ => m == P
+  | _ => false
+
+theorem splitLast_eq (m P : MName) (c : String) (hp : m.dropLast ≠ []) (h1 : m.dropLast = P)
+    (h2 : m.getLastD "" = c) : m = P ++ [c] := by
+  have hm : m ≠ [] := by intro h; subst h; simp at hp
+  rw [← h1, ← h2, List.getLastD_eq_getLast?, List.getLast?_eq_some_getLast hm]
+  exact (List.dropLast_concat_getLast hm).symm
+
+theorem ensures_nonP {α : Type} (P : MName) (q : Frame → Bool) (fn : α → MName) (names : List α) :
+    ∀ f' ∈ (names.map (fun nm => Frame.ensure (fn nm))).filter q, isP P f' = false := by
+  intro f' hf'
+  rw [List.mem_filter, List.mem_map] at hf'
+  obtain ⟨⟨nm, _, rfl⟩, _⟩ := hf'
+  rfl
+
+theorem step_after (g : Graph) (P : MName) (c : String) (s : St) (f : Frame) (fs : List Frame)
+    (m : MName) (hf : (∃ t, f = .afterStar m t) ∨ (∃ t n, f = .afterFrom m t n) ∨ (∃ t a, f = .afterImp m t a))
+    (s' : St) (st' : List Frame) (hstep : step g s (f :: fs) = (s', st')) :
+    st' = fs ∧ Rel P c (m ≠ P) s s' := by
+  rcases hf with ⟨t, rfl⟩ | ⟨t, names, rfl⟩ | ⟨t, a, rfl⟩
+  · simp only [step] at hstep
+    split at hstep
+    · cases hstep
+      refine ⟨rfl, rel_foldl P c _ _ (fun a x => ?_) _ _⟩
+      exact rel_bind _ _ _ _ _ _ _ (fun h => Or.inl h)
+    · cases hstep; exact ⟨rfl, Rel.refl ..⟩
+  · simp only [step] at hstep
+    cases hstep
+    refine ⟨rfl, rel_foldl P c _ _ (fun a x => ?_) _ _⟩
+    obtain ⟨k, a'⟩ := x
+    simp only []
+    split
+    · exact rel_bind _ _ _ _ _ _ _ (fun h => Or.inl h)
+    · split
+      · exact rel_bind _ _ _ _ _ _ _ (fun h => Or.inl h)
+      · split
+        · exact rel_err ..
+        · exact rel_bind _ _ _ _ _ _ _ (fun h => Or.inl h)
+  · simp only [step] at hstep
+    split at hstep <;> cases hstep <;> exact ⟨rfl, rel_bind _ _ _ _ _ _ _ (fun h => Or.inl h)⟩
+
+theorem step_err (g : Graph) (s : St) (st : List Frame) (h : s.err ≠ none) :
+    (step g s st).1.err ≠ none := by
+  cases st with
+  | nil => simpa [step] using h
+  | cons f fs =>
+    have haft : ∀ m, ((∃ t, f = .afterStar m t) ∨ (∃ t n, f = .afterFrom m t n) ∨
+        (∃ t a, f = .afterImp m t a)) → (step g s (f :: fs)).1.err ≠ none := fun m hf =>
+      (step_after g [] "" s f fs m hf _ _ rfl).2.2.2 h
+    cases f with
+    | ensure t =>
+      simp only [step]
+      repeat' split
+      all_goals first | exact h | exact orElse_ne_none _ _ | (simpa using h)
+    | exec m r =>
+      cases r with
+      | nil => simpa [step] using h
+      | cons st rest =>
+        cases st <;> simp only [step] <;> repeat' split
+        all_goals first | exact h | exact orElse_ne_none _ _ | (simpa using h)
+    | finish m =>
+      simp only [step]
+      repeat' split
+      all_goals first | exact h | (simpa using h)
+    | afterStar m t => exact haft m (Or.inl ⟨t, rfl⟩)
+    | afterFrom m t names => exact haft m (Or.inr (Or.inl ⟨t, names, rfl⟩))
+    | afterImp m t a => exact haft m (Or.inr (Or.inr ⟨t, a, rfl⟩))
+
+theorem step_nonP (g : Graph) (P : MName) (c : String) (src : ModSrc) (hsrc : g.src? P = some src)
+    (s : St) (f : Frame) (fs : List Frame) (hf : isP P f = false) (s' : St) (st' : List Frame)
+    (hstep : step g s (f :: fs) = (s', st')) :
+    ∃ new, st' = new ++ fs ∧
+      (((∀ f' ∈ new, isP P f' = false) ∧ s'.loaded P = s.loaded P ∧
+          (s.loaded P = true →
+            s'.lookup P c = s.lookup P c ∨ s'.lookup P c = some (.module (P ++ [c]))))
+        ∨ (s.loaded P = false ∧ new = [.exec P src.body, .finish P] ∧ s'.loaded P = true)) := by
+  cases f with
+  | ensure t =>
+    simp only [step] at hstep
+    split at hstep
+    · cases hstep; exact ⟨[], rfl, Or.inl ⟨by simp, rfl, fun _ => Or.inl rfl⟩⟩
+    · rename_i hlt
+      split at hstep
+      · cases hstep
+        exact ⟨[.ensure (splitLast t).1, .ensure t], rfl, Or.inl ⟨by simp [isP], rfl, fun _ => Or.inl rfl⟩⟩
+      · by_cases htP : t = P
+        · subst htP
+          rw [hsrc] at hstep
+          cases hstep
+          refine ⟨[.exec t src.body, .finish t], rfl, Or.inr ⟨by simpa using hlt, rfl, ?_⟩⟩
+          simp [loaded_setMod]
+        · have hPt : (P == t) = false := by simpa using fun e => htP e.symm
+          split at hstep
+          · rename_i src' _
+            cases hstep
+            refine ⟨[.exec t src'.body, .finish t], rfl, Or.inl ⟨?_, ?_, fun _ => Or.inl ?_⟩⟩
+            · simp [isP, htP]
+            · simp [loaded_setMod, hPt]
+            · exact lookup_setMod_ne _ _ _ _ _ (fun e => htP e.symm)
+          · split at hstep
+            · cases hstep; exact ⟨[], rfl, Or.inl ⟨by simp, rfl, fun _ => Or.inl rfl⟩⟩
+            · cases hstep
+              refine ⟨[], rfl, Or.inl ⟨by simp, ?_, fun _ => Or.inl ?_⟩⟩
+              · simp [loaded_setMod, hPt]
+              · exact lookup_setMod_ne _ _ _ _ _ (fun e => htP e.symm)
+  | exec m r =>
+    have hm : m ≠ P := by simpa [isP] using hf
+    have hPm : (P == m) = false := by simpa using fun e => hm e.symm
+    cases r with
+    | nil =>
+      simp only [step] at hstep; cases hstep
+      exact ⟨[], rfl, Or.inl ⟨by simp, rfl, fun _ => Or.inl rfl⟩⟩
+    | cons st rest =>
+      cases st with
+      | star t =>
+        simp only [step] at hstep; cases hstep
+        exact ⟨[.ensure t, .afterStar m t, .exec m rest], rfl,
+          Or.inl ⟨by simp [isP, hm], rfl, fun _ => Or.inl rfl⟩⟩
+      | fromImp t names =>
+        simp only [step] at hstep; cases hstep
+        refine ⟨(.ensure t :: _) ++ [.afterFrom m t names, .exec m rest],
+          (List.append_assoc _ [Frame.afterFrom m t names, Frame.exec m rest] fs).symm,
+          Or.inl ⟨?_, rfl, fun _ => Or.inl rfl⟩⟩
+        intro f' hf'
+        simp only [List.mem_cons, List.mem_append, List.not_mem_nil, or_false] at hf'
+        rcases hf' with (rfl | hf') | rfl | rfl
+        · rfl
+        · exact ensures_nonP P _ _ names f' hf'
+        · simp [isP, hm]
+        · simp [isP, hm]
+      | imp t a =>
+        simp only [step] at hstep; cases hstep
+        exact ⟨[.ensure t, .afterImp m t a, .exec m rest], rfl,
+          Or.inl ⟨by simp [isP, hm], rfl, fun _ => Or.inl rfl⟩⟩
+      | define k =>
+        simp only [step] at hstep; cases hstep
+        exact ⟨[.exec m rest], rfl, Or.inl ⟨by simp [isP, hm], loaded_bind .., fun _ =>
+          Or.inl (lookup_bind_ne _ _ _ _ _ _ (Or.inl fun e => hm e.symm))⟩⟩
+      | setAll names =>
+        simp only [step] at hstep
+        split at hstep
+        · cases hstep
+          refine ⟨[.exec m rest], rfl, Or.inl ⟨by simp [isP, hm], ?_, fun _ => Or.inl ?_⟩⟩
+          · simp [loaded_setMod, hPm]
+          · exact lookup_setMod_ne _ _ _ _ _ (fun e => hm e.symm)
+        · cases hstep
+          exact ⟨[.exec m rest], rfl, Or.inl ⟨by simp [isP, hm], rfl, fun _ => Or.inl rfl⟩⟩
+      | rebind k t =>
+        simp only [step] at hstep
+        split at hstep
+        · cases hstep
+          exact ⟨[.exec m rest], rfl, Or.inl ⟨by simp [isP, hm], loaded_bind .., fun _ =>
+            Or.inl (lookup_bind_ne _ _ _ _ _ _ (Or.inl fun e => hm e.symm))⟩⟩
+        · cases hstep
+          exact ⟨[.exec m rest], rfl, Or.inl ⟨by simp [isP, hm], rfl, fun _ => Or.inl rfl⟩⟩
+  | finish m =>
+    simp only [step] at hstep
+    split at hstep
+    · rename_i hp
+      cases hstep
+      refine ⟨[], rfl, Or.inl ⟨by simp, loaded_bind .., fun hl => ?_⟩⟩
+      by_cases h : (splitLast m).1 = P ∧ (splitLast m).2 = c
+      · right
+        have hp' : m.dropLast ≠ [] := by simpa [splitLast] using hp
+        have := splitLast_eq m P c hp' h.1 h.2
+        rw [h.1, h.2, this]
+        exact lookup_bind_self _ _ _ _ hl
+      · left
+        apply lookup_bind_ne
+        by_cases h1 : (splitLast m).1 = P
+        · exact Or.inr fun e => h ⟨h1, e.symm⟩
+        · exact Or.inl fun e => h1 e.symm
+    · cases hstep; exact ⟨[], rfl, Or.inl ⟨by simp, rfl, fun _ => Or.inl rfl⟩⟩
+  | afterStar m t =>
+    have hm : m ≠ P := by simpa [isP] using hf
+    obtain ⟨rfl, h1, h2, _⟩ := step_after g P c s _ fs m (Or.inl ⟨t, rfl⟩) s' st' hstep
+    exact ⟨[], rfl, Or.inl ⟨by simp, h1 P, fun _ => Or.inl (h2 hm)⟩⟩
+  | afterFrom m t names =>
+    have hm : m ≠ P := by simpa [isP] using hf
+    obtain ⟨rfl, h1, h2, _⟩ := step_after g P c s _ fs m (Or.inr (Or.inl ⟨t, names, rfl⟩)) s' st' hstep
+    exact ⟨[], rfl, Or.inl ⟨by simp, h1 P, fun _ => Or.inl (h2 hm)⟩⟩
+  | afterImp m t a =>
+    have hm : m ≠ P := by simpa [isP] using hf
+    obtain ⟨rfl, h1, h2, _⟩ := step_after g P c s _ fs m (Or.inr (Or.inr ⟨t, a, rfl⟩)) s' st' hstep
+    exact ⟨[], rfl, Or.inl ⟨by simp, h1 P, fun _ => Or.inl (h2 hm)⟩⟩
+
+theorem isAft_cases (P : MName) (a : Frame) (h : isAft P a = true) :
+    (∃ t, a = .afterStar P t) ∨ (∃ t n, a = .afterFrom P t n) ∨ (∃ t x, a = .afterImp P t x) := by
+  cases a <;> simp [isAft] at h <;> subst h
+  · exact Or.inl ⟨_, rfl⟩
+  · exact Or.inr (Or.inl ⟨_, _, rfl⟩)
+  · exact Or.inr (Or.inr ⟨_, _, rfl⟩)
+
+theorem isAft_isP (P : MName) (a : Frame) (h : isAft P a = true) : isP P a = true := by
+  cases a <;> simp_all [isAft, isP]
+
+theorem filter_nonP (P : MName) (l : List Frame) (h : ∀ f ∈ l, isP P f = false) :
+    l.filter (isP P) = [] := by
+  rw [List.filter_eq_nil_iff]; intro f hf; simp [h f hf]
+
+theorem step_P_exec (g : Graph) (P : MName) (s : St) (st : Stmt) (rest : List Stmt) (fs : List Frame)
+    (s' : St) (st' : List Frame) (hstep : step g s (.exec P (st :: rest) :: fs) = (s', st')) :
+    ∃ new, st' = new ++ .exec P rest :: fs ∧
+      (new.filter (isP P) = [] ∨ ∃ a, isAft P a = true ∧ new.filter (isP P) = [a]) ∧
+      s'.loaded P = s.loaded P := by
+  cases st with
+  | star t =>
+    simp only [step] at hstep; cases hstep
+    exact ⟨[.ensure t, .afterStar P t], rfl, Or.inr ⟨.afterStar P t, by simp [isAft], by simp [isP]⟩, rfl⟩
+  | fromImp t names =>
+    simp only [step] at hstep; cases hstep
+    refine ⟨(.ensure t :: _) ++ [.afterFrom P t names],
+      (List.append_assoc _ [Frame.afterFrom P t names] (.exec P rest :: fs)).symm,
+      Or.inr ⟨.afterFrom P t names, by simp [isAft], ?_⟩, rfl⟩
+    rw [List.filter_append, filter_nonP]
+    · simp [isP]
+    · intro f' hf'
+      rcases List.mem_cons.1 hf' with rfl | hf'
+      · rfl
+      · exact ensures_nonP P _ _ names f' hf'
+  | imp t a =>
+    simp only [step] at hstep; cases hstep
+    exact ⟨[.ensure t, .afterImp P t a], rfl, Or.inr ⟨.afterImp P t a, by simp [isAft], by simp [isP]⟩, rfl⟩
+  | define k =>
+    simp only [step] at hstep; cases hstep
+    exact ⟨[], rfl, Or.inl rfl, loaded_bind ..⟩
+  | setAll names =>
+    simp only [step] at hstep
+    split at hstep
+    · rename_i ms hms
+      cases hstep
+      refine ⟨[], rfl, Or.inl rfl, ?_⟩
+      have : s.loaded P = true := by rw [loaded_eq, hms]; rfl
+      simp [loaded_setMod, this]
+    · cases hstep; exact ⟨[], rfl, Or.inl rfl, rfl⟩
+  | rebind k t =>
+    simp only [step] at hstep
+    split at hstep
+    · cases hstep; exact ⟨[], rfl, Or.inl rfl, loaded_bind ..⟩
+    · cases hstep; exact ⟨[], rfl, Or.inl rfl, rfl⟩
+
+theorem step_P_rebind (g : Graph) (P : MName) (s : St) (k : String) (rest : List Stmt) (fs : List Frame)
+    (s' : St) (st' : List Frame)
+    (hstep : step g s (.exec P (.rebind k (P ++ [k]) :: rest) :: fs) = (s', st'))
+    (hl : s.loaded P = true) (herr : s'.err = none) :
+    st' = .exec P rest :: fs ∧ s'.loaded P = true ∧ s'.lookup P k = some (.module (P ++ [k])) ∧
+      ∀ c, c ≠ k → s'.lookup P c = s.lookup P c := by
+  simp only [step] at hstep
+  split at hstep
+  · cases hstep
+    refine ⟨rfl, by simpa using hl, lookup_bind_self _ _ _ _ hl, fun c hc => ?_⟩
+    exact lookup_bind_ne _ _ _ _ _ _ (Or.inr hc)
+  · cases hstep
+    exact absurd herr (orElse_ne_none _ _)
+/-! ### The invariant -/
+
+/-- `l` consists only of statements `k = sys.modules["P.k"]` -/
+def SafeT (P : MName) (l : List Stmt) : Prop := ∀ st ∈ l, ∃ k, st = .rebind k (P ++ [k])
+
+/-- `r` still contains the re-binding of `c`, followed only by correct re-bindings -/
+def HasTarget (P : MName) (c : String) (r : List Stmt) : Prop :=
+  ∃ pre tl, r = pre ++ .rebind c (P ++ [c]) :: tl ∧ SafeT P tl
+
+/-- a `P`-owned frame is an `exec` frame in the safe tail -/
+def okFrame (P : MName) (f : Frame) : Prop := isP P f = true → ∃ r, f = .exec P r ∧ SafeT P r
+
+def Inv (P : MName) (c : String) (s : St) (stack : List Frame) : Prop :=
+  s.err = none →
+    (s.loaded P = false ∧ stack.filter (isP P) = []) ∨
+    (s.loaded P = true ∧ ∃ r, HasTarget P c r ∧
+      (stack.filter (isP P) = [.exec P r] ∨
+        ∃ a, isAft P a = true ∧ stack.filter (isP P) = [a, .exec P r])) ∨
+    (s.loaded P = true ∧ s.lookup P c = some (.module (P ++ [c])) ∧ ∀ f ∈ stack, okFrame P f)
+
+theorem okFrame_of_nonP (P : MName) (f : Frame) (h : isP P f = false) : okFrame P f := by
+  intro h'; rw [h] at h'; cases h'
+
+theorem Inv_step (g : Graph) (P : MName) (c : String) (src : ModSrc) (hsrc : g.src? P = some src)
+    (hbody : HasTarget P c src.body) (s : St) (f : Frame) (fs : List Frame)
+    (hinv : Inv P c s (f :: fs)) (s' : St) (st' : List Frame)
+    (hstep : step g s (f :: fs) = (s', st')) : Inv P c s' st' := by
+  intro herr'
+  have herr : s.err = none := by
+    cases h : s.err with
+    | none => rfl
+    | some e =>
+      have := step_err g s (f :: fs) (by simp [h])
+      rw [hstep] at this
+      exact absurd herr' this
+  have hinv := hinv herr
+  cases hf : isP P f with
+  | false =>
+    obtain ⟨new, rfl, hnew⟩ := step_nonP g P c src hsrc s f fs hf s' st' hstep
+    have hfilt : (f :: fs).filter (isP P) = fs.filter (isP P) := by simp [hf]
+    rw [hfilt] at hinv
+    rcases hinv with ⟨hl, hst⟩ | ⟨hl, r, hr, hst⟩ | ⟨hl, hlk, hok⟩
+    · rcases hnew with ⟨h1, h2, _⟩ | ⟨_, rfl, h3⟩
+      · left
+        refine ⟨h2.trans hl, ?_⟩
+        rw [List.filter_append, filter_nonP P new h1, hst]; rfl
+      · right; left
+        refine ⟨h3, src.body, hbody, Or.inl ?_⟩
+        rw [List.filter_append, hst]; simp [isP]
+    · rcases hnew with ⟨h1, h2, _⟩ | ⟨h0, _, _⟩
+      · right; left
+        refine ⟨h2.trans hl, r, hr, ?_⟩
+        rw [List.filter_append, filter_nonP P new h1]; exact hst
+      · rw [hl] at h0; cases h0
+    · rcases hnew with ⟨h1, h2, h3⟩ | ⟨h0, _, _⟩
+      · right; right
+        refine ⟨h2.trans hl, ?_, ?_⟩
+        · rcases h3 hl with h | h
+          · rw [h, hlk]
+          · exact h
+        · intro f' hf'
+          rcases List.mem_append.1 hf' with hf' | hf'
+          · exact okFrame_of_nonP P f' (h1 f' hf')
+          · exact hok f' (List.mem_cons_of_mem _ hf')
+      · rw [hl] at h0; cases h0
+  | true =>
+    have hfilt : (f :: fs).filter (isP P) = f :: fs.filter (isP P) := by simp [hf]
+    rw [hfilt] at hinv
+    rcases hinv with ⟨hl, hst⟩ | ⟨hl, r, hr, hst⟩ | ⟨hl, hlk, hok⟩
+    · cases hst
+    · rcases hst with hst | ⟨a, ha, hst⟩
+      · -- the top frame is `exec P r`
+        injection hst with h1 h2
+        subst h1
+        obtain ⟨pre, tl, hr, htl⟩ := hr
+        have hfs : ∀ f' ∈ fs, isP P f' = false := by
+          intro f' hf'
+          have := (List.filter_eq_nil_iff.1 h2) f' hf'
+          simpa using this
+        cases pre with
+        | nil =>
+          rw [List.nil_append] at hr; subst hr
+          obtain ⟨rfl, h1, h3, _⟩ := step_P_rebind g P s c tl fs s' st' hstep hl herr'
+          right; right
+          refine ⟨h1, h3, ?_⟩
+          intro f' hf'
+          rcases List.mem_cons.1 hf' with rfl | hf'
+          · intro _; exact ⟨tl, rfl, htl⟩
+          · exact okFrame_of_nonP P f' (hfs f' hf')
+        | cons st pre =>
+          rw [List.cons_append] at hr; subst hr
+          obtain ⟨new, rfl, hnew, h3⟩ := step_P_exec g P s st _ fs s' st' hstep
+          right; left
+          refine ⟨h3.trans hl, pre ++ .rebind c (P ++ [c]) :: tl, ⟨pre, tl, rfl, htl⟩, ?_⟩
+          have : (new ++ Frame.exec P (pre ++ .rebind c (P ++ [c]) :: tl) :: fs).filter (isP P)
+              = new.filter (isP P) ++ [.exec P (pre ++ .rebind c (P ++ [c]) :: tl)] := by
+            rw [List.filter_append, List.filter_cons, h2]; simp [isP]
+          rw [this]
+          rcases hnew with h | ⟨a, ha, h⟩
+          · left; rw [h]; rfl
+          · right; exact ⟨a, ha, by rw [h]; rfl⟩
+      · injection hst with h1 h2
+        subst h1
+        obtain ⟨rfl, hrel⟩ := step_after g P c s f fs P (isAft_cases P f ha) s' st' hstep
+        right; left
+        exact ⟨(hrel.1 P).trans hl, r, hr, Or.inl h2⟩
+    · have hf0 := hok f (List.mem_cons_self ..) hf
+      obtain ⟨r, rfl, hr⟩ := hf0
+      have hfs : ∀ f' ∈ fs, okFrame P f' := fun f' hf' => hok f' (List.mem_cons_of_mem _ hf')
+      cases r with
+      | nil =>
+        simp only [step] at hstep; cases hstep
+        right; right; exact ⟨hl, hlk, hfs⟩
+      | cons st rest =>
+        obtain ⟨k, rfl⟩ := hr st (List.mem_cons_self ..)
+        have hrest : SafeT P rest := fun x hx => hr x (List.mem_cons_of_mem _ hx)
+        obtain ⟨rfl, h1, h3, h4⟩ := step_P_rebind g P s k rest fs s' st' hstep hl herr'
+        right; right
+        refine ⟨h1, ?_, ?_⟩
+        · by_cases hck : c = k
+          · subst hck; exact h3
+          · rw [h4 c hck, hlk]
+        · intro f' hf'
+          rcases List.mem_cons.1 hf' with rfl | hf'
+          · intro _; exact ⟨rest, rfl, hrest⟩
+          · exact hfs f' hf'
+
+/-! ### Lifting to `run` -/
+
+theorem run_nil (g : Graph) (n : Nat) (s : St) : run g n (s, []) = (s, []) := by
+  cases n <;> rfl
+
+theorem run_err (g : Graph) (n : Nat) (s : St) (st : List Frame) (h : s.err ≠ none) :
+    (run g n (s, st)).1.err ≠ none := by
+  induction n generalizing s st with
+  | zero => exact h
+  | succ n ih =>
+    cases st with
+    | nil => rw [run_nil]; exact h
+    | cons f fs => exact ih _ _ (step_err g s (f :: fs) h)
+
+theorem Inv_run (g : Graph) (P : MName) (c : String) (src : ModSrc) (hsrc : g.src? P = some src)
+    (hbody : HasTarget P c src.body) (n : Nat) (s : St) (st : List Frame) (hinv : Inv P c s st) :
+    Inv P c (run g n (s, st)).1 (run g n (s, st)).2 := by
+  induction n generalizing s st with
+  | zero => exact hinv
+  | succ n ih =>
+    cases st with
+    | nil => rw [run_nil]; exact hinv
+    | cons f fs =>
+      exact ih _ _ (Inv_step g P c src hsrc hbody s f fs hinv _ _ rfl)
+
+theorem Inv_init (P : MName) (c : String) (first : MName) :
+    Inv P c {} [.ensure first, .ensure ["eolib"]] := by
+  intro _; left; exact ⟨rfl, rfl⟩
+
+theorem Inv_final (P : MName) (c : String) (s : St) (hinv : Inv P c s []) (herr : s.err = none)
+    (hl : s.loaded P = true) : s.lookup P c = some (.module (P ++ [c])) := by
+  rcases hinv herr with ⟨h, _⟩ | ⟨_, r, _, h⟩ | ⟨_, h, _⟩
+  · rw [hl] at h; cases h
+  · rcases h with h | ⟨a, _, h⟩ <;> cases h
+  · exact h
+
+theorem rebinding_sound_core (g : Graph) (first : MName) (fuel : Nat) (P : MName) (c : String)
+    (src : ModSrc) (hsrc : g.src? P = some src) (hbody : HasTarget P c src.body)
+    (hfin : (eval g first fuel).2 = []) (hok : (eval g first fuel).1.err = none)
+    (hloaded : (eval g first fuel).1.loaded P = true) :
+    (eval g first fuel).1.lookup P c = some (.module (P ++ [c])) := by
+  have h := Inv_run g P c src hsrc hbody fuel _ _ (Inv_init P c first)
+  unfold eval at hfin hok hloaded ⊢
+  rw [hfin] at h
+  exact Inv_final P c _ h hok hloaded
+
+/-! ### From the decidable check to `HasTarget` -/
+
+theorem suffix_decomp {α : Type} (p : α → Bool) (body : List α) :
+    body = (body.reverse.dropWhile p).reverse ++ (body.reverse.takeWhile p).reverse := by
+  rw [← List.reverse_append, List.takeWhile_append_dropWhile, List.reverse_reverse]
+
+theorem hasTarget_of_suffix (P : MName) (c : String) (body pre suffix : List Stmt)
+    (hb : body = pre ++ suffix) (hs : SafeT P suffix) (hm : Stmt.rebind c (P ++ [c]) ∈ suffix) :
+    HasTarget P c body := by
+  obtain ⟨x, y, rfl⟩ := List.append_of_mem hm
+  refine ⟨pre ++ x, y, by rw [hb, List.append_assoc], ?_⟩
+  intro st hst
+  exact hs st (List.mem_append_right _ (List.mem_cons_of_mem _ hst))
 
 end EoVerif.Imp
